@@ -188,7 +188,7 @@ def run(repo, check):
     check.run_rule(rule_fold, repo, check.tier)
     check.run_rule(rule_cli, repo)
     check.run_rule(c05.rule_state_mode, repo, 'C10.R5')
-    r6 = c05.rule_r7(repo)
+    r6 = check.call(c05.rule_r7, repo)
     r6.rule = 'C10.R6'
     r6.title = 'a reduced column that became all-equal / all-missing reads back as the same bytes (shared with C05.R7)'
     for f in r6.findings:
